@@ -31,4 +31,5 @@ def main(tier, replay=None):
                 "Return-Path gone, and the rewritten header injected again must give the same To+Cc addresses")
     res.assumptions = ["NUL and LF are excluded from local parts (property text)", "virtual kernel (appendix A); queue program is a recording stand-in"]
     res.require_nonzero("evaluations", "local_parts_needing_quotes", "injections", "reparses")
+    lib_conformance(res, rd, srca, ['bytes', 'ctl'], tier, asan=True)
     return res.finish()
